@@ -26,6 +26,11 @@ refuses it) or is a `Refusal` — a pass never guesses.
   Inliner              calls of module-level helper functions that are not translated under their own name
                        are expanded in place (parameters bound, locals renamed apart); recursion, closures,
                        generators, global/nonlocal, decorators, **kwargs are refusals
+  _ForeignHelpers      helper functions imported from ANOTHER module of the repository are first closed with
+                       their own module's table (aliases resolved there; reading that module's state is a
+                       refusal), then expanded like local helpers
+prepare_function runs them in this order: canonical_names, canon_numpy, (foreign calls), try_else, fold_constants,
+Inliner, fold_constants, unroll_for, split_tuple_assign, single_exit, collapse_ret.
 """
 import ast
 import copy
